@@ -167,8 +167,16 @@ pub fn check_source_with(src: &str, reference: Option<&str>, class: &str, l: &mu
         return true;
     }
     if b.comments != a_comments {
+        let (mut x, mut y) = (a_comments.clone(), b.comments.clone());
+        x.sort();
+        y.sort();
+        // all comments kept but in another order: the one known way is a regular comment
+        // written between a doc comment and the definition / constructor / field it documents
+        let lines: Vec<&str> = src.lines().map(|l| l.trim_start()).collect();
+        let after_doc = lines.windows(2).any(|w| w[0].starts_with("///") && !w[0].starts_with("////") && w[1].starts_with("//") && !w[1].starts_with("///"));
+        let signature = if x == y && after_doc { "comments-reordered|a regular comment between a doc comment and the item it documents".to_string() } else if x == y { format!("comments-reordered|{class}") } else { format!("comments-changed|{class}") };
         l.violations.push(Violation {
-            signature: format!("comments-changed|{class}"),
+            signature,
             what: format!("comments before formatting {:?}, after {:?}:\n--- source\n{src}\n--- formatted\n{out}", a_comments, b.comments),
             case,
         });
@@ -290,6 +298,8 @@ pub fn templates() -> Vec<(&'static str, String)> {
         t("record-constructor", "type Foo {\n  i: Int,\n  b: Bool,\n}\n\nfn f(x: Foo) {\n  when x is {\n    Foo { i: _, b: True } -> 1\n    Foo { i, b: False } -> i\n    Foo { .. } -> 2\n  }\n}\n"),
         t("record-constructor", "type Foo {\n  Foo { i: Int, b: Bool }\n  Bar(Int, Bool)\n}\n\nfn f() {\n  let a = Foo { i: 1, b: True }\n  let b = Foo(1, True)\n  let c = Bar(_, True)\n  let d = Foo { ..a, i: 2 }\n  (a, b, c(1), d)\n}\n"),
         t("patterns", "fn f(xs: List<(Int, Option<Int>)>) {\n  when xs is {\n    [] -> 0\n    [(a, Some(b)), ..] -> a + b\n    [(_, None) as p, ..rest] -> p.1st + f(rest)\n    [_, _] | [_, _, _] -> 2\n    _ -> 1\n  }\n}\n"),
+        t("patterns", "fn f(x) {\n  expect Output {\n    address,\n    value: v,\n    datum,\n    ..\n  } = x\n  let Pair(k, Foo { a, b: _ }) = v\n  when datum is {\n    Some(Inline { data, .. }) -> data\n    Foo(p, q) | Bar(p, q) -> p\n    _ -> address\n  }\n}\n"),
+        t("definitions", "/// Doc of f\nfn f() {\n  1\n}\n\n/// Doc of T\npub type T {\n  /// Doc of A\n  A\n  B {\n    /// Doc of x\n    x: Int,\n  }\n}\n"),
         t("literals", "const a = 0xFF\n\nconst b = 0b1010\n\nconst c = 0o17\n\nconst d = 1_000_000\n\nconst i = -5\n"),
         t("literals", "const e = #\"00ff\"\n\nconst f = \"utf8\"\n"),
         t("literals", "const g = #[1, 2, 255]\n\nconst g3 = #[0xff, 0x00]\n"),
